@@ -252,6 +252,16 @@ def extra_checks(tier, repo, builddir):
 # is decided by the C06 inductive step of br_ssl_engine_recvrec_ack (over-long record refused at the header, regions
 # inside the caller's buffers, no empty-region wedge); a seeded change there (C05b) must fail C05 as well.
 _c05_queries = queries
+def _vrfy_asn1_queries():
+    from verif import Q
+    qs = []
+    for (impl, sl, rl, lf, tier) in ((15, 134, 0, 1, "quick"), (15, 134, 127, 1, "quick"), (15, 144, 10, 1, "quick"), (15, 72, 32, 0, "quick"),
+                                     (31, 134, 0, 1, "quick"), (31, 144, 10, 1, "thorough"), (15, 140, 64, 1, "thorough"), (15, 9, 1, 0, "quick")):
+        qs.append(Q("vrfy-asn1-i%d-SL%d-R%d-%s" % (impl, sl, rl, "long" if lf else "short"), "C05_vrfy_asn1.c",
+                    units=["src/ec/ecdsa_i%d_vrfy_asn1.c" % impl, "src/ec/ecdsa_atr.c"],
+                    defs=["-DIMPL=%d" % impl, "-DSL=%d" % sl, "-DRL=%d" % rl, "-DLONGF=%d" % lf] + (["-DEXPECT_EXPAND=1"] if (sl, rl) in ((134, 0), (134, 127), (144, 10)) else []), unwind=302, timeout=600, backend="cadical", tier=tier,
+                    desc="br_ecdsa_i%d_vrfy_asn1 on a %d-byte hostile signature (first INTEGER %d bytes, %s-form SEQUENCE length; headers and leading content bytes symbolic): in-place ASN.1->raw conversion stays inside the work area; raw verifier stubbed" % (impl, sl, rl, "long" if lf else "short")))
+    return qs
 def queries():
     import C06
-    return _c05_queries() + [q for q in C06.queries() if q.name.startswith("step-recvrec_ack-") and q.tier == "quick"]
+    return _c05_queries() + _vrfy_asn1_queries() + [q for q in C06.queries() if q.name.startswith("step-recvrec_ack-") and q.tier == "quick"]
